@@ -500,4 +500,150 @@ theorem incr_id (n : Nat) : Incr (fun i => (i : ℚ)) n := by
   show (i : ℚ) < (j : ℚ)
   exact_mod_cast hij
 
+/-! ### Round 4: uniform grids, `Resampling`, `linear_deform` -/
+
+section
+variable {K : Type} [Field K] [LinearOrder K] [IsStrictOrderedRing K]
+variable {V : Type} [AddCommGroup V] [Module K V]
+
+/-- The nodes computed by `uniform_grid_fromintv` + `np.linspace` are the cell midpoints. -/
+theorem uniformNode_eq (lo hi : K) (n i : Nat) (hn : 1 ≤ n) (hi' : i < n) :
+    uniformNode lo hi n i = lo + (2 * (i : K) + 1) * ((hi - lo) / (2 * (n : K))) := by
+  have hn0 : (n : K) ≠ 0 := by
+    have : (0 : K) < (n : K) := by exact_mod_cast hn
+    exact ne_of_gt this
+  unfold uniformNode
+  simp only
+  split_ifs with h
+  · obtain ⟨h1, _⟩ := h
+    have : (n : K) = (i : K) + 1 := by exact_mod_cast h1.symm
+    rw [this] at hn0 ⊢
+    field_simp
+    ring
+  · by_cases h1 : n = 1
+    · subst h1
+      have : i = 0 := by omega
+      subst this
+      simp
+    · have h2 : i + 1 < n := by
+        by_contra hc
+        exact h ⟨by omega, by omega⟩
+      have hn1 : (n : K) - 1 ≠ 0 := by
+        have : (1 : K) < (n : K) := by exact_mod_cast (by omega : 1 < n)
+        intro hh; linarith
+      field_simp
+      ring
+
+theorem uniformAxis_good (lo hi : K) (n : Nat) (s : Scheme) (h : lo < hi) (hn : 2 ≤ n) :
+    (uniformAxis lo hi n s).Good := by
+  refine ⟨hn, ?_⟩
+  intro i j hij hj
+  have hj : j < n := hj
+  show uniformNode lo hi n i < uniformNode lo hi n j
+  rw [uniformNode_eq lo hi n i (by omega) (by omega), uniformNode_eq lo hi n j (by omega) hj]
+  have hpos : 0 < (hi - lo) / (2 * (n : K)) := by
+    have : (0 : K) < (n : K) := by exact_mod_cast (by omega : 0 < n)
+    apply div_pos <;> linarith
+  have : (i : K) < (j : K) := by exact_mod_cast hij
+  nlinarith
+
+/-- Every element of a cartesian product has its `j`-th entry from the `j`-th factor. -/
+theorem cartesian_forall₂ {A α : Type} (P : A → α → Prop) (axes : List A) (ls : List (List α))
+    (h : List.Forall₂ (fun a l => ∀ x ∈ l, P a x) axes ls) :
+    ∀ t ∈ cartesian ls, List.Forall₂ P axes t := by
+  induction h with
+  | nil => intro t ht; simp [cartesian] at ht; subst ht; exact .nil
+  | @cons a l as ls hal _ ih =>
+    intro t ht
+    simp only [cartesian, List.mem_flatMap, List.mem_map] at ht
+    obtain ⟨x, hx, t', ht', rfl⟩ := ht
+    exact .cons (hal x hx) (ih t' ht')
+
+theorem forall₂_map_of_mem {A α : Type} (f : A → List α) (P : A → α → Prop) (axes : List A)
+    (h : ∀ a ∈ axes, ∀ x ∈ f a, P a x) :
+    List.Forall₂ (fun a l => ∀ x ∈ l, P a x) axes (axes.map f) := by
+  induction axes with
+  | nil => exact .nil
+  | cons a as ih =>
+    exact .cons (h a (by simp)) (ih (fun b hb => h b (by simp [hb])))
+
+/-- Every multi-index listed by the C-order enumeration is inside the grid. -/
+theorem mem_allIdx_lt (axes : List (Axis K)) (idx : List Nat)
+    (h : idx ∈ cartesian (axes.map (fun a => List.range a.n))) :
+    List.Forall₂ (fun (a : Axis K) i => i < a.n) axes idx :=
+  cartesian_forall₂ (fun (a : Axis K) i => i < a.n) axes _
+    (forall₂_map_of_mem (fun (a : Axis K) => List.range a.n) _ axes
+      (fun a _ x hx => by simpa using hx)) idx h
+
+theorem nodes_eq_zipWith (axes : List (Axis K)) :
+    axes.map Axis.nodes =
+      List.zipWith (fun a l => l.map (fun i => a.c i)) axes (axes.map (fun a => List.range a.n)) := by
+  induction axes with
+  | nil => rfl
+  | cons a as ih => simp [Axis.nodes, ih]
+
+/-- `space.points()` lists the grid points of all multi-indices in C order. -/
+theorem gridPoints_eq (axes : List (Axis K)) :
+    gridPoints axes = (cartesian (axes.map (fun a => List.range a.n))).map
+      (List.zipWith (fun a i => a.c i) axes) := by
+  unfold gridPoints
+  rw [nodes_eq_zipWith, cartesian_zipWith_map (fun (a : Axis K) i => a.c i) axes _ (by simp)]
+
+theorem perAxisInterp_allNearest (axes : List (Axis K))
+    (hg : ∀ a ∈ axes, a.Good ∧ a.scheme = .nearest) (v : List Nat → V) (p : List K) :
+    perAxisInterp axes v p = nearestInterp axes v p := by
+  induction axes generalizing v p with
+  | nil => simp [perAxisInterp_nil, nearestInterp]
+  | cons a as ih =>
+    cases p with
+    | nil => simp [perAxisInterp, perAxisEval_nil, nearestInterp]
+    | cons x xs =>
+      have h := hg a (by simp)
+      rw [perAxisInterp_cons,
+        nearest_edge_select a h.1 h.2 x (fun k => perAxisInterp as (fun idx => v (k :: idx)) xs),
+        ih (fun b hb => hg b (by simp [hb]))]
+      simp [nearestInterp]
+
+theorem perAxisInterpolator_eq (axes : List (Axis K)) (hg : ∀ a ∈ axes, a.Good)
+    (v : List Nat → V) (p : List K) :
+    perAxisInterpolator axes v p = perAxisInterp axes v p := by
+  unfold perAxisInterpolator allNearest
+  split
+  · rename_i h
+    refine (perAxisInterp_allNearest axes (fun a ha => ⟨hg a ha, ?_⟩) v p).symm
+    have := List.all_eq_true.mp h a ha
+    simpa using this
+  · rfl
+
+/-- Mesh-grid call of `per_axis_interpolator`: the single-point interpolant at every point of
+the mesh, C order (dispatch + broadcasting of the per-axis stage). -/
+theorem perAxisInterpolatorMesh_eq (axes : List (Axis K)) (hg : ∀ a ∈ axes, a.Good)
+    (v : List Nat → V) (vecs : List (List K)) (h : vecs.length = axes.length) :
+    perAxisInterpolatorMesh axes v vecs = (cartesian vecs).map (perAxisInterp axes v) := by
+  unfold perAxisInterpolatorMesh
+  split
+  · rename_i hn
+    have hall : ∀ a ∈ axes, a.Good ∧ a.scheme = .nearest := fun a ha =>
+      ⟨hg a ha, by simpa using List.all_eq_true.mp hn a ha⟩
+    simp only [nearestMesh,
+      cartesian_zipWith_map (fun (a : Axis K) x => nearestIndex a.c a.n x) axes vecs h, List.map_map]
+    apply List.map_congr_left
+    intro p _
+    simp only [Function.comp, perAxisInterp_allNearest axes hall v p, nearestInterp]
+  · simp only [perAxisMesh, cartesian_zipWith_map Axis.edge axes vecs h, List.map_map]
+    rfl
+
+theorem zipWith_add_zero (G : List (List K)) :
+    List.zipWith (List.zipWith (· + ·)) G (G.map (fun p => p.map (fun _ => (0 : K)))) = G := by
+  induction G with
+  | nil => rfl
+  | cons p G ih =>
+    simp only [List.map_cons, List.zipWith_cons_cons, ih]
+    congr 1
+    induction p with
+    | nil => rfl
+    | cons x xs ihx => simp only [List.map_cons, List.zipWith_cons_cons, add_zero, ihx]
+
+end
+
 end OdlModel.Interp
